@@ -31,3 +31,45 @@ import PsVerif
 #print axioms PsVerif.ccqr_none_eq_qr
 #print axioms PsVerif.ccqr_prohibitive
 #print axioms PsVerif.zero_pivot_removes_nothing
+-- C05
+#print axioms PsVerif.predetermined_split
+#print axioms PsVerif.maxN_count_le
+#print axioms PsVerif.exactN_count_eq
+-- C06
+#print axioms PsVerif.gqr_own_class_max
+#print axioms PsVerif.gqr_inactive_eq_qr
+#print axioms PsVerif.gqr_s0_eq_ccqr_prohibitive
+-- C14
+#print axioms PsVerif.selected_eq_take
+#print axioms PsVerif.setN_preserves_ranking
+#print axioms PsVerif.setN_ok_iff
+#print axioms PsVerif.setN_ok_value
+#print axioms PsVerif.setN_rejected_unchanged
+#print axioms PsVerif.setN_fitted
+#print axioms PsVerif.lastAccepted_cons_some
+#print axioms PsVerif.lastAccepted_cons_none
+#print axioms PsVerif.setters_last_wins
+#print axioms PsVerif.setters_observe_last
+#print axioms PsVerif.basis_fit_rep_rows
+#print axioms PsVerif.ctor_fit_eq_fit_set
+-- C15
+#print axioms PsVerif.BasisSt.fit_kind
+#print axioms PsVerif.BasisSt.fit_nModes
+#print axioms PsVerif.BasisSt.fit_congr
+#print axioms PsVerif.BasisSt.rep_congr
+#print axioms PsVerif.Sspor.fit_eq_tail
+#print axioms PsVerif.fit_is_reset_partial
+#print axioms PsVerif.fit_preserves_settings
+#print axioms PsVerif.fit_failed_keeps_ranking
+#print axioms PsVerif.fit_failed_is_not_reset
+#print axioms PsVerif.fit_after_history_is_reset
+#print axioms PsVerif.identity_default_freezes
+#print axioms PsVerif.update_modes_prefix
+#print axioms PsVerif.update_modes_invalid_unchanged
+-- C16
+#print axioms PsVerif.lead_seed_independent
+#print axioms PsVerif.lead_untouched
+#print axioms PsVerif.tailShuffle_drop
+#print axioms PsVerif.tail_set_seed_independent
+#print axioms PsVerif.same_seed_same_ranking
+#print axioms PsVerif.no_tail_seed_irrelevant
